@@ -533,6 +533,7 @@ Proof.
   unfold build. destruct t as [docs|n d ents]; [discriminate|].
   apply nd_bind; [apply nd_accumulate|]. intros m _.
   apply nd_bind; [apply nd_mapM; intros; apply nd_hash_res|]. intros m1 _.
+  apply nd_bind; [unfold hash_check; destruct (forallb _ m1); discriminate|]. intros _ _.
   apply nd_bind; [destruct pipe_rules_ok as [rs E]; rewrite E; discriminate|]. intros rules _.
   apply nd_bind; [apply nd_nameref_transform|]. intros m2 _.
   apply nd_bind; [apply nd_ignore_local|]. intros m2l _.
@@ -570,10 +571,11 @@ Proof.
   - split; [|reflexivity]. intros _. exists s. split; [reflexivity|]. left. apply Nat.eqb_neq. exact E1.
 Qed.
 
-(* ... and the FromResourceSlice panic of IgnoreLocal (id collision after the hash suffix was added) *)
+(* regression: the id collision after the hash suffix was added used to reach IgnoreLocal, whose FromResourceSlice
+   panics; the HashTransformer now reports it as an error *)
 Example build_panic_hash_clash :
   build (fun _ => false) PSortNone
         (PDir "t" (mkPDirs "" "" "" [] [] [] [mkPGen "a" "" "" ["k=v"] "" false [] [] false] [])
            [PFile [Map [("apiVersion", Scalar TStr SPlain "v1"); ("kind", Scalar TStr SPlain "ConfigMap");
-                        ("metadata", Map [("name", Scalar TStr SPlain "a-bdg947hgcc")])]]]) = Panic.
+                        ("metadata", Map [("name", Scalar TStr SPlain "a-bdg947hgcc")])]]]) = Err.
 Proof. vm_compute. reflexivity. Qed.
